@@ -86,6 +86,23 @@ def mk(spec: Tuple[str, Any, Any]):
         if shape == "extra_unified":
             return (J.JSONRPCMessage.model_validate(dict({"jsonrpc": "2.0", "id": mid, "method": "tools/call", "params": params}, **extras)),
                     dict({"jsonrpc": "2.0", "id": mid, "method": "tools/call", "params": params}, **extras))
+    if shape.startswith("deep"):
+        # payloads nested a few hundred levels (well inside what both validation backends and both JSON backends
+        # represent; beyond the 255 levels of the typed layer's own JSON writer): still one line each, whatever the shape
+        depth, kind = shape[4:].split("_", 1)
+        v: Any = {"leaf": payload}
+        for i in range(int(depth)):
+            v = {"n": v} if i % 3 else [v]
+        dparams = {"name": "t", "arguments": {"deep": v}}
+        if kind == "typed_request":
+            return J.create_request("tools/call", dparams, id=mid), {"jsonrpc": "2.0", "id": mid, "method": "tools/call", "params": dparams}
+        if kind == "typed_response":
+            return J.create_response(mid, dparams), {"jsonrpc": "2.0", "id": mid, "result": dparams}
+        if kind == "typed_notification":
+            return J.create_notification("notifications/x", dparams), {"jsonrpc": "2.0", "method": "notifications/x", "params": dparams}
+        if kind == "dict":
+            d = {"jsonrpc": "2.0", "id": mid, "method": "tools/call", "params": dparams}
+            return dict(d), d
     if shape == "legacy_request":
         return J.JSONRPCMessage.create_request("tools/call", params, id=mid), {"jsonrpc": "2.0", "id": mid, "method": "tools/call", "params": params}
     if shape == "legacy_notification":
@@ -154,6 +171,7 @@ GOOD_SHAPES = ["typed_request", "typed_request_noparams", "typed_notification", 
                "direct_request", "direct_notification", "direct_response", "direct_error", "direct_legacy", "direct_validate",
                "str_pretty", "str_trailing_newline",
                "extra_request", "extra_notification", "extra_response", "extra_error", "extra_unified"]
+DEEP_SHAPES = [f"deep{d}_{k}" for d in (200, 260, 400, 600) for k in ("typed_request", "typed_response", "typed_notification", "dict")]
 BAD_SHAPES = ["unser_object", "unser_set", "unser_circular", "unser_bytes", "surrogate_dict", "unser_surrogate_str",
               "unser_deep", "unser_badrepr", "unser_typed_object", "unser_typed_bytes", "unser_typed_legacy_object"]
 IDS = [1, 0, "a", "123", 2**63, "\u00fc"]
@@ -165,6 +183,8 @@ def gen_cases(ctx):
     for sh in GOOD_SHAPES:
         for p in PAYLOAD_STRINGS:
             yield [(sh, p, 1), ("dict_notification", "sentinel", None)]
+    for sh in DEEP_SHAPES:
+        yield [("typed_notification", "before", None), (sh, "deep\npayload", 7), ("dict_notification", "sentinel", None)]
     # unserialisable at every position of a 3-message sequence
     base = [("typed_request", "a\nb", 1), ("dict", "c d", 2), ("str_utf8", "e\rf", 3)]
     for bad in BAD_SHAPES:
